@@ -200,10 +200,27 @@ fn filter_part(res: &mut PartResult, states: &mut vseq::States) {
                         continue;
                     }
                 };
+                // the same layer object used again after its options were changed (a layer is a reusable factory:
+                // `layer(&self)`): the second filter follows the new options, the first one keeps the old ones
+                let log2: Log = Default::default();
+                fl.case_insensitive(!ci).use_dfa(!dfa);
+                let rec2 = match vseq::catch(|| fl.layer(LogRec { id: 0, log: log2.clone() })) {
+                    Ok(r) => r,
+                    Err(e) => {
+                        res.violation("filter-layer-panic", format!("building a second filter from the layer for {:?} panicked: {}", set, e), json!({"part": "filter"}));
+                        continue;
+                    }
+                };
                 for name in names() {
                     for kind in 0..3 {
                         res.executions += 1;
                         res.transitions += 1;
+                        let got2 = drive(&rec2, &log2, &name, kind);
+                        let filtered2 = set.iter().any(|p| contains_ci(&name, p, !ci));
+                        let want2 = if filtered2 { vec![] } else { expect(0, &name, kind) };
+                        if got2 != want2 {
+                            res.violation(if filtered2 { "filter-layer-let-matching-name-through" } else { "filter-layer-dropped-or-changed-non-matching-name" }, format!("patterns {:?}: second filter made from the same layer after case_insensitive({}) (first one was made with {}): name {:?} {}: inner saw {:?}, expected {:?}", set, !ci, ci, name, KINDS[kind], got2, want2), json!({"part": "filter", "name": name}));
+                        }
                         let got = drive(&rec, &log, &name, kind);
                         let filtered = set.iter().any(|p| contains_ci(&name, p, ci));
                         let want = if filtered { vec![] } else { expect(0, &name, kind) };
@@ -419,7 +436,7 @@ fn main() {
     driver::main(CheckDef {
         prop: "C13",
         level: "model_checking",
-        rule: "names = all strings of length <= 4 over {a,b,.,A} plus {\"\", é, aé, p.a}; for each name and kind the describe, register and every handle operation is driven through: the prefix layer (4 prefixes), the filter layer (all ordered pattern lists of <= 2 over {\"\",a,ab,B,é}, handed over at once, one by one through add_pattern, or mixed, x case-insensitive x DFA), the router (all ordered route tables of <= 3 (thorough 5) routes over 6 patterns x 4 kind masks, incl. duplicates and overlaps), the fanout (width 0-3) and all stacks of <= 3 layers from {Prefix p, Prefix q.r, Filter a, Filter p.} in every order; logging doubles record exactly what reached which recorder, compared with a reference written from the docs; distinct = distinct (owner / filtered / log shape) outcomes",
+        rule: "names = all strings of length <= 4 over {a,b,.,A} plus {\"\", é, aé, p.a}; for each name and kind the describe, register and every handle operation is driven through: the prefix layer (4 prefixes), the filter layer (all ordered pattern lists of <= 2 over {\"\",a,ab,B,é}, handed over at once, one by one through add_pattern, or mixed, x case-insensitive x DFA, each layer object used a second time after its options were flipped), the router (all ordered route tables of <= 3 (thorough 5) routes over 6 patterns x 4 kind masks, incl. duplicates and overlaps), the fanout (width 0-3) and all stacks of <= 3 layers from {Prefix p, Prefix q.r, Filter a, Filter p.} in every order; logging doubles record exactly what reached which recorder, compared with a reference written from the docs; distinct = distinct (owner / filtered / log shape) outcomes",
         assumptions: &["ASCII case folding for case-insensitive filters (as aho-corasick documents)", "with duplicated routes either owner is accepted, but exactly one"],
         parts,
         run,
